@@ -411,3 +411,75 @@ Definition check_dflt (at_first : bool) (lens : list N) (exp : option nat) : boo
   | Some a, Some b => Nat.eqb a b
   | _, _ => false
   end.
+
+(* ================================================================== part 4: a source that answers call by call
+   VirtioFsWriter::write_all_from over a file whose n-th read gets the n-th answer of a script: data (of which
+   write_from places a prefix), an error, or ErrorKind::Interrupted (retried by the loop); calls beyond the script see
+   end of file.  Bytes placed by earlier rounds stay placed -- and marked -- when a later round fails. *)
+Inductive sans := SGive (data : list N) | SFail | SIntr.
+Definition src_of (a : sans) : option (list N) := match a with SGive data => Some data | _ => None end.
+Fixpoint vw_wafs (script : list sans) (count : N) (m : mem) (d : dirty) (b : iobuf) : res * mem * dirty * iobuf :=
+  if count =? 0 then (ROk 0 [], m, d, b)
+  else match script with
+       | [] => (* end of file: write_from moves nothing, Ok(0) => WriteZero *)
+           match vw_write_from count (Some []) m d b with
+           | (ROk _ _, m', d', b') => (RErr EEof, m', d', b')
+           | other => other
+           end
+       | SIntr :: r => vw_wafs r count m d b                                 (* Err(Interrupted) => {} *)
+       | a :: r =>
+           match vw_write_from count (src_of a) m d b with
+           | (ROk 0 _, m', d', b') => (RErr EEof, m', d', b')
+           | (ROk n _, m', d', b') => vw_wafs r (count - n) m' d' b'
+           | other => other
+           end
+       end.
+Definition vw_write_all_from_s (count : N) (script : list sans) (m : mem) (d : dirty) (b : iobuf) :=
+  if avail b <? count then (RErr ENoSpace, m, d, b) else vw_wafs script count m d b.
+
+Inductive sop :=
+| SA (a : avop)
+| SWriteAllFromS (i : nat) (count : N) (script : list sans).
+Definition sstep (x : sop) (st : vstate) : obs * vstate :=
+  match x with
+  | SA a => avstep a st
+  | SWriteAllFromS i count script =>
+      match nth_error (v_wr st) i with
+      | None => (obs_bad, st)
+      | Some b => let '(r, m', d', b') := vw_write_all_from_s count script (v_mem st) (v_dirty st) b in
+                  (obs1 r b', mkv m' d' (v_rd st) (set_nth i b' (v_wr st)))
+      end
+  end.
+Fixpoint srun (ops : list sop) (st : vstate) : list obs * vstate :=
+  match ops with
+  | [] => ([], st)
+  | op :: r => let '(o, st') := sstep op st in
+               let '(os, st'') := srun r st' in (o :: os, st'')
+  end.
+(* the write_from calls the loop makes, one per answer it consumes *)
+Fixpoint unroll (i : nat) (script : list sans) (count : N) : list vop :=
+  if count =? 0 then []
+  else match script with
+       | [] => [WWriteFrom i count (Some [])]
+       | SIntr :: r => unroll i r count
+       | SFail :: r => [WWriteFrom i count None]
+       | SGive data :: r =>
+           WWriteFrom i count (Some data) ::
+           (if N.min count (lenN data) =? 0 then [] else unroll i r (count - N.min count (lenN data)))
+       end.
+
+Definition check_svd (seed : N) (regions : list (N * N)) (ds : list desc) (dirty0 : list N) (ops : list sop)
+           (exp_init : hres) (exp : list hobs) (windows : list (N * N * N)) (marked universe : list N) : bool :=
+  let '(r, st0) := v_init seed regions ds in
+  let st := mkv (v_mem st0) (dirty_of dirty0) (v_rd st0) (v_wr st0) in
+  match r with
+  | ROk _ _ =>
+      res_heqb r exp_init &&
+      let o0 := match v_rd st, v_wr st with
+                | rd :: _, wr :: _ => mkobs (ROk 0 []) (avail rd) (consumed rd) (avail wr) (consumed wr)
+                | _, _ => obs_bad
+                end in
+      let '(os, st') := srun ops st in
+      obs_list_heqb (o0 :: os) exp && windows_ok (v_mem st') windows && dirty_ok (v_dirty st') marked universe
+  | _ => res_heqb r exp_init
+  end.
